@@ -599,6 +599,7 @@ func fsPlan(id string) func(cx *CheckCtx) int {
 		}
 		cx.Extra["fs_cases"] = stats.CrashPoints + stats.FaultPoints
 		cx.Extra["crash_points"] = stats.CrashPoints
+		cx.Extra["commands_given_again_after_crash"] = stats.Retries
 		cx.Extra["fault_points"] = stats.FaultPoints
 		cx.Extra["fault_positions_unreached"] = stats.Unreached
 		cx.Extra["commands_recorded"] = stats.Commands
@@ -630,6 +631,7 @@ func mergeStats(a, b *fsStats) {
 	a.KillMismatch += b.KillMismatch
 	a.Commands += b.Commands
 	a.Drift += b.Drift
+	a.Retries += b.Retries
 	a.Protocol = append(a.Protocol, b.Protocol...)
 	for k, v := range b.ByCmd {
 		a.ByCmd[k] += v
